@@ -107,6 +107,11 @@ class Interp(object):
                 return out
             res = []
             txt = unparse(node) if node is not None else v.tag
+            if not v.input and getattr(self, "int_sat", 2) > 2 and not getattr(self, "allow_guess", False):
+                # constant mode: every value comes from the literals the rule supplied; an unknown here means that something
+                # on the way is not modelled - no verdict, rather than a verdict built on a guess
+                raise Unsupported("constant evaluation depends on a value the interpreter does not know (%s) at %s: %s" % (
+                    v.tag, self.loc(node) if node is not None else "?", txt))
             for b in (True, False):
                 s2 = st.fork()
                 self.stats["forks"] += 1
@@ -509,8 +514,10 @@ class Interp(object):
             st.frames[-1][target.id] = v
             return [(st, "next", None)]
         if isinstance(target, (ast.Tuple, ast.List)):
-            if isinstance(v, Ref) and st.obj(v).kind == "list" and st.obj(v).items is not None:
-                items = tuple(st.obj(v).items)
+            if isinstance(v, Ref) and "@nt" in st.obj(v).fields:
+                v = tuple(st.obj(v).fields[n_] for n_ in st.obj(v).fields["@nt"])      # a namedtuple unpacks like a tuple
+            if isinstance(v, Ref) and st.obj(v).kind in ("list", "iterator") and st.obj(v).items is not None and "@op" not in st.obj(v).fields:
+                items = tuple(st.obj(v).items[st.obj(v).fields.get("@pos", 0):]) if st.obj(v).kind == "iterator" else tuple(st.obj(v).items)
                 if len(items) != len(target.elts):
                     return self.raise_exc(st, "ValueError", target, "unpack", "unpack %d values into %d names" % (len(items), len(target.elts)))
                 v = items
@@ -958,6 +965,8 @@ class Interp(object):
             o = st.obj(it)
             if o.kind in ("list", "set") and o.items is not None:
                 return ("concrete", list(o.items))
+            if "@nt" in o.fields:
+                return ("concrete", [o.fields[n_] for n_ in o.fields["@nt"]])
             if o.kind == "iterator":
                 if "@gen" in o.fields:
                     outs = _lazyiter.force(self, st, it, node)
